@@ -18,6 +18,7 @@ Inductive mval : Type :=
 | MBool (b : bool)
 | MInt (z : Z)
 | MDec (m e : Z)                 (* decimal.Decimal, finite *)
+| MFloat (m e : Z)               (* Python float (PositiveFloat fields), finite: m * 10^e *)
 | MStr (s : str)                 (* plain str / constr / Enum value *)
 | MFmt (s : str)                 (* FormatString instance (any subclass) *)
 | MList (l : list mval)
@@ -186,6 +187,7 @@ Section Print.
       | MBool b => JBool b
       | MInt z => JInt z
       | MDec m e => JStr (print_dec m e)
+      | MFloat m e => JDec m e
       | MStr s | MFmt s => JStr s
       | MList l => JArr (map (to_object f) l)
       | MDict l => JObj (flat_map (fun kv => match snd kv with
